@@ -253,6 +253,21 @@ def drain (m : Map) (take : Nat) (forget : Bool) (o : Orc) : Except Fault (Map Ã
            { ret := .ents yielded, cost := oldFree + { dropped := idsOf restE ++ idsOf uncovered },
              returned := idsOf yielded })
 
+/-- `into_iter()`, `take` items pulled, then the iterator is dropped: the map is consumed; what was
+    not yielded is dropped, both tables are freed. -/
+def intoIter (m : Map) (take : Nat) (o : Orc) : Except Fault Out :=
+  if !drainOrderOk m o.calls then .error (.oracle "into_iter: order is not old-then-main")
+  else if overCount m then
+    .error (.ub "into_iter_from: iterator count exceeds the table's elements")
+  else
+    let all := o.calls.filterMap (fun k => (m.find k).map (Â·.2))
+    let yielded := all.take take
+    let restE := all.drop take
+    let uncovered : List Entry := match m.lo with | some ol => ol.ents.drop ol.cursor | none => []
+    let oldFree : Cost := match m.lo with | some ol => ol.freeCost | none => {}
+    .ok { ret := .ents yielded, cost := oldFree + m.main.freeCost + { dropped := idsOf restE ++ idsOf uncovered },
+          returned := idsOf yielded }
+
 /-- `iter()` (and `iter_mut`, `keys`, `values`, `values_mut`): the sequence yielded. -/
 def iter (m : Map) (o : Orc) : Except Fault Out :=
   if !iterOrderOk m o.calls then .error (.oracle "iter: order is not main-then-old")
